@@ -1,13 +1,19 @@
-(* C15 model: what GriffeLoader.load does to the interpreter.  Executable definitions only.
+(* C15 model: what GriffeLoader.load and the public entry points do to the interpreter.  Executable definitions only.
      - CPython's import of a dotted name over an abstract world of module behaviours (authority model; tied by the
        execution-log correspondence),
      - importer.sys_path / importer.dynamic_import as state transformers over {sys.path binding, list heap, sys.modules},
-     - Inspector.get_module (import-path computation), GriffeLoader._inspect_module, _load_module(_path), _load_submodule,
-       _load_package, load (with the ModuleNotFoundError fallback) and a session = root load followed by re-entrant loads
-       (alias resolution / wildcard expansion call self.load on the same loader),
+     - Inspector.get_module (import-path computation), GriffeLoader._inspect_module (its statements interpreted in source
+       order: ignored prefixes, source read, inspect with the SystemExit mapping), _load_module(_path), _load_submodule,
+       _load_package, load (with the ModuleNotFoundError fallback),
+     - re-entrant loads as request trees: alias resolution / wildcard expansion call self.load on the same loader, and a
+       re-entered package with stubs re-enters again from inside its own _load_package, to any depth,
+     - the finder's search paths (`search_paths or sys.path`, resolved, first occurrence kept) and the public entry points
+       (load, load_git, `griffe dump`, the loads of `griffe check`) as sequences of loaders with the options forwarded as
+       Gen/C15_ladder.v says,
      - s-expression codecs and run_C15.
-   The decision tables (agent ladder, handler lists, restore protocol) come from Gen/C15_ladder.v, which is regenerated
-   from loader.py / importer.py on every run. *)
+   The decision tables (agent ladder, handler lists, restore protocol, statement order of _inspect_module, which files
+   are read, finder fallback, option forwarding) come from Gen/C15_ladder.v, which is regenerated from loader.py /
+   importer.py / finder.py / cli.py on every run. *)
 From Coq Require Import List ZArith String Ascii Bool Arith.
 From Verif Require Import Lib.Sexp Model.C15_base Gen.C15_ladder.
 Import ListNotations.
